@@ -97,6 +97,11 @@ theorem digest_binds_fields_counterexample : ¬ digest_binds_fields_statement :=
 theorem v1_loop_uncounted_collision :
     v1Stream [⟨[1], 0, [], [], 5⟩, ⟨[], 6, [], [], 7⟩] [] = v1Stream [⟨[1], 0, [], [], 5⟩] [Tok.num 6, Tok.num 7] := by decide
 
+/-- `HDInfo` enters the stream only from version 2 on: a version-1 transaction's digest and id
+do not cover it (known finding `txdigest-v1-omits-hdinfo`, format frozen). -/
+theorem v1_hdinfo_only_from_v2 :
+    (XV.Gen.txDigestV1.filter (fun i => i.path == "HDInfo")).map (·.conds) = [["Version>=2"]] := by decide
+
 /-! ## Part 2 — decision logic -/
 
 open XV.SigLogic
@@ -403,6 +408,34 @@ theorem unsigned_owner_rejected (e : Env) (t : SigLogic.Tx) (i : Input) (a : Add
 /-- a changed id (or changed content under the old id) is rejected -/
 theorem txid_mismatch_rejected (e : Env) (t : SigLogic.Tx) (h : t.txidOk = false) : verifyTx e t = false := by
   simp [verifyTx, h]
+
+/-- the property at full strength for the signature area: every signature entry of an accepted
+transaction is a valid one (so that altering or adding any entry yields rejection) -/
+def signature_mutation_rejected_statement : Prop :=
+  ∀ (e : Env) (t : SigLogic.Tx), verifyTx e t = true → ∀ s ∈ t.initiatorSigns ++ t.authRequireSigns, s.sigOk = true
+
+/-- False of the code as it is (known finding `signature-area-malleable`): for an address initiator
+only the first initiator entry is read, beside a XuperSign no classic entry is read, and the entry
+of an already verified address is skipped — such entries may be garbage; signatures are in the id
+but not in the digest, so with a recomputed id the altered transaction is accepted. -/
+theorem signature_mutation_rejected_counterexample : ¬ signature_mutation_rejected_statement := by
+  intro h
+  have := h ⟨fun _ _ => true, fun _ => true⟩
+    ⟨true, .ak 1, [⟨some 1, true⟩, ⟨none, false⟩], [], [], none, [⟨.ak 1, false⟩]⟩ (by decide) ⟨none, false⟩ (by simp)
+  simp at this
+
+/-- What does hold: a mutation that leaves the initiator, a listed signer or the owner of a spent
+output without any valid entry is rejected. -/
+theorem signature_mutation_rejected_partial (e : Env) (t : SigLogic.Tx)
+    (h : (∃ a, t.initiator = .ak a ∧ ¬ signedBy t a) ∨ (∃ r ∈ t.authRequire, ¬ signedBy t r.addr) ∨
+         (∃ i ∈ t.inputs, ∃ a, i.byContract = false ∧ i.owner = .ak a ∧ ¬ signedBy t a)) :
+    verifyTx e t = false := by
+  rcases h with ⟨a, ha, hno⟩ | ⟨r, hr, hno⟩ | ⟨i, hi, a, hb, ho, hno⟩
+  · apply Bool.eq_false_iff.mpr
+    intro hv
+    exact hno ((accept_implies_signed e t hv).2.1 a ha)
+  · exact unsigned_signer_rejected e t r hr hno
+  · exact unsigned_owner_rejected e t i a hi hb ho hno
 
 /-! ## non-vacuity -/
 
